@@ -311,7 +311,7 @@ Section Decode.
         | JNull => Ok cur
         | JObj kvs =>
             let cur_fields := match cur with VStruct _ fs => fs | _ => [] end in
-            do fs <- obj_loop (decode f) fields kvs cur_fields;
+            do fs <- obj_loop (fun t j c => decode f t j c) fields kvs cur_fields;
             Ok (VStruct n fs)
         | _ => Err (b "decode:struct-not-an-object")
         end
@@ -336,9 +336,9 @@ Section Decode.
                   (* keys are matched over the union of both field sets: raw fields sit at depth 0,
                      promoted ordinary fields at depth 1; a depth-0 field wins a name clash *)
                   let all := map (fun p => (fst p, (true, snd p))) raws ++ map (fun p => (fst p, (false, snd p))) ordinary in
-                  do st <- first_pass (decode f) all kvs cur_fields [];
+                  do st <- first_pass (fun t j c => decode f t j c) all kvs cur_fields [];
                   let '(acc1, caps) := st in
-                  do fs <- second_pass (decode f) (fill f) j caps fields acc1;
+                  do fs <- second_pass (fun t j c => decode f t j c) (fun n p l r c => fill f n p l r c) j caps fields acc1;
                   Ok (VStruct n fs)
               | _ => Err EDEC
               end
